@@ -656,6 +656,18 @@ impl<R: io::Read + io::Seek> IndexedReader<R> {
     fn seek_to(&mut self, idx: &IndexRecord, start: u64) -> io::Result<u64> {
         assert!(start <= idx.len);
 
+        if idx.line_bases == 0 {
+            // `samtools faidx` writes 0 bases per line for a record without sequence
+            if idx.len == 0 {
+                self.reader.seek(io::SeekFrom::Start(idx.offset))?;
+                return Ok(0);
+            }
+            return Err(io::Error::new(
+                io::ErrorKind::InvalidData,
+                "FASTA index record has zero bases per line.",
+            ));
+        }
+
         let line_offset = start % idx.line_bases;
         let line_start = start / idx.line_bases * idx.line_bytes;
         let offset = idx.offset + line_start + line_offset;
